@@ -138,6 +138,34 @@ def history_rule(ctx, body, R):
                 e = eb._rvalue(rv, (), 0, (i, si))
                 alts = e.args if e.kind == 'phi' else [e]
                 for k, alt in enumerate(alts):
+                    base = alt.strip()
+                    if base.kind == 'call' and base.name.rsplit('::', 1)[-1] in ('with_capacity', 'new', 'default') and \
+                            hasattr(base.extra, 'args'):
+                        # built in place: `let mut h = Vec::with_capacity(a + b); h.extend(prev); h.extend(src)` — the
+                        # fills of that very vector, in order: the previous history once, then the source's once
+                        fills = []
+                        for c in body.find_calls():
+                            if c.args and c.name in ('extend', 'extend_from_slice', 'append', 'push', 'insert',
+                                                     'extend_from_within', 'truncate', 'clear', 'retain', 'dedup',
+                                                     'remove', 'pop', 'sort', 'reverse', 'drain', 'resize') and any(
+                                    y.kind == 'call' and y.extra is base.extra for y in eb.arg(c, 0).walk()):
+                                fills.append(c)
+                        inst = 'history-value#%d.%d' % (n, k)
+                        srcs = []
+                        for c in fills:
+                            a1 = eb.arg(c, 1) if len(c.args) > 1 else None
+                            roots = {p.root for p in a1.places() if p.fields[:1] == ('merge_history',)} if a1 else set()
+                            srcs.append((c, roots))
+                        okf = len(fills) == 2 and all(c.name in ('extend', 'extend_from_slice', 'append') and
+                                                      not body.in_loop(c.bb) for c in fills) and \
+                            [r for _c, r in srcs] == [{('param', 1)}, {('param', 2)}] and \
+                            body.dominates(fills[0].bb, fills[1].bb) and i in body.reach_from(fills[1].bb)
+                        n_ = [c.name for c in fills]
+                        ctx.check(okf, R, body, inst + ':verbatim', 'previous history then the source\'s, appended once each',
+                                  'the merge history is built in place by %s over %s: expected the previous history '
+                                  'followed once by the source\'s, verbatim' % (n_, [sorted(r) for _c, r in srcs]), s['ln'])
+                        ctx.check(True, R, body, inst, 'built in place', '')
+                        continue
                     prev = [p for p in alt.places() if p.root == ('param', 1) and p.fields[:1] == ('merge_history',)]
                     src = [p for p in alt.places() if p.root == ('param', 2) and p.fields[:1] == ('merge_history',)]
                     inst = 'history-value#%d.%d' % (n, k)
